@@ -137,6 +137,9 @@ func c17PreSignature(sess *c17Session, cfg c17Cfg, f c17Finding) string {
 	if sess.Used["twin-file"] > 0 {
 		sb.WriteString("|twin-file")
 	}
+	for _, rd := range sess.Redef {
+		sb.WriteString("|redef:" + rd.kinds() + "/" + rd.Access)
+	}
 	return sb.String()
 }
 
@@ -275,6 +278,7 @@ func c17OutputHash(m c17MinResult) uint64 {
 // with what the worker processes produced (determinism across processes: Go
 // randomises map layout per process).
 func c17Driver(d *fw.D) {
+	c17RedefFloor(d)
 	have := d.Sets["cross_process_output_hashes"]
 	if len(have) == 0 {
 		return
@@ -374,6 +378,14 @@ func c17Run(w *fw.W, idx int) {
 	if last.IsErr && c17MsgClass(last.Msg) == "unbound-symbol" {
 		w.Count("original_unbound_symbol", 1)
 	}
+	for _, rd := range sess.Redef {
+		w.Count("redef_groups_generated", 1)
+		w.SetAdd("redef_kinds_generated", rd.kinds())
+		w.SetAdd("redef_access_generated", rd.Access)
+		if last.IsErr {
+			w.Count("redef_groups_in_sessions_whose_original_ends_in_error", 1)
+		}
+	}
 
 	for _, cfg := range cfgs {
 		t1 := time.Now()
@@ -387,6 +399,7 @@ func c17Run(w *fw.W, idx int) {
 			w.SetAdd("cross_process_output_hashes", fmt.Sprintf("%d|%s|%016x", idx, cfg.name(), c17OutputHash(m1)))
 		}
 		nontrivial := len(m1.Map.Entries) > 0
+		c17RedefObserve(w, sess, cfg, m1)
 		for _, f := range findings {
 			if f.Cat == "unaligned" {
 				w.Count("map_check_unaligned_not_judged", 1)
@@ -682,4 +695,55 @@ func c17Key(min *c17Case, f *c17Finding, evals *int) string {
 		key += "@" + n
 	}
 	return key
+}
+
+// c17RedefObserve records what the minifier did with the groups "a name defined
+// more than once, referenced from elsewhere" of one (session, configuration):
+// how many of the name's defining forms it renamed (from the symbol map: one
+// entry per renamed defining form) - a group none of whose forms is renamed
+// (the name is excluded, exported under the defaults, named by a macro template)
+// exercises nothing.
+func c17RedefObserve(w *fw.W, sess *c17Session, cfg c17Cfg, m c17MinResult) {
+	if m.Err != nil {
+		return
+	}
+	for _, rd := range sess.Redef {
+		n := 0
+		for _, e := range m.Map.Entries {
+			if e.Original == rd.Name && e.Kind == "function" && e.File == sess.Paths[rd.File] {
+				n++
+			}
+		}
+		w.Count("redef_groups_judged", 1)
+		if n == 0 {
+			w.Count("redef_groups_judged_no_defining_form_renamed", 1)
+			continue
+		}
+		w.Count("redef_groups_judged_with_a_renamed_defining_form", 1)
+		w.SetAdd("redef_kinds_judged_with_a_renamed_defining_form", rd.kinds())
+		w.SetAdd("redef_access_judged_with_a_renamed_defining_form", rd.Access+"@"+cfg.name())
+		w.Max("redef_max_renamed_defining_forms_of_one_name", int64(n))
+		if cfg.Order != "" {
+			w.Count("redef_groups_judged_with_inputs_in_another_order_than_the_load_order", 1)
+		}
+	}
+}
+
+// c17RedefFloor: the family must have been generated AND have reached the
+// renaming of a defining form often enough, in enough kind sequences, or the run
+// says nothing about it.
+func c17RedefFloor(d *fw.D) {
+	minGroups, minKinds := int64(150), 12
+	if d.Tier == "thorough" {
+		minGroups, minKinds = 2500, 20
+	}
+	if got := d.Counters["redef_groups_judged_with_a_renamed_defining_form"]; got < minGroups {
+		d.Inconclusive(fmt.Sprintf("coverage floor not met: %d judged groups 'a name defined more than once, referenced from elsewhere' with a renamed defining form < %d", got, minGroups))
+	}
+	if got := len(d.Sets["redef_kinds_judged_with_a_renamed_defining_form"]); got < minKinds {
+		d.Inconclusive(fmt.Sprintf("coverage floor not met: %d kind sequences of names defined more than once were judged with a renamed defining form < %d", got, minKinds))
+	}
+	if got := d.Counters["redef_groups_judged_with_inputs_in_another_order_than_the_load_order"]; got == 0 {
+		d.Inconclusive("coverage floor not met: no group 'a name defined more than once' was minified with the inputs in another order than the load order")
+	}
 }
